@@ -611,7 +611,7 @@ static void probe_foreach(int t, int konst, int stop, int erase)
     int r, total = nlive[t];
     const char *ph = phase_of(t);
     char nm[64];
-    if (stop && total > 0) { p.stop_at = (int)(st_sig() % total); p.stop_val = (p.stop_at & 1) ? -(5 + p.stop_at) : 5 + p.stop_at; }
+    if (stop && total > 0) { p.stop_at = (int)(st_sig() % total); p.stop_val = vrt_stop_value(7u * vrt_case_tick() + (unsigned)p.stop_at); }
     clear_visits(t);
     vrt_state(ph);
     if (konst) {
